@@ -38,6 +38,16 @@
                           which xmlparser lets through with an empty prefix positioned at the colon - is
                           refused with `UnknownPrefix("", colon .. end of name)` in every builder state, nothing
                           interned; an absent (offset 0) or non-empty prefix passes; the three texts as strings
+
+  COMPLETENESS of the rejection list (last section; Lemmas/ParseNsComplete*.lean):
+    C03_accepts_iff_well_spelled (+ _erased, _unguarded), C03_accepted_is_denoted, C03_well_spelled_accepted
+                          under the token-shape contract and without empty text tokens, `build` accepts a token
+                          list IFF it is - up to version-1.0 XML declaration tokens - exactly the token list of a
+                          well-formed spelling (`WellNsDoc`, Props/C02.lean), and the tree is the denoted document
+    C03_rejects_everything_else   every other such list is refused with an error (no panic, no tree)
+    C03_string_accepts_iff, C03_string_accepted_is_denoted, C03_string_rejects_everything_else,
+    C03_lex_no_empty_text   the same for `parse` / `parse_fragment` on ANY string (no hypothesis)
+    C03_empty_text_token_corner, C03_declaration_skipped   the two token-level corners outside `WellNsDoc`
 -/
 import XotModel.Lemmas.ParseSound
 import XotModel.Lemmas.ParseNoPanic
